@@ -68,6 +68,18 @@ def _retrieve_preconditions(ex, st, post, result):
     yield ('srs_supported', goal_srs, 'supported_srs != [] => the SRS sent upstream is in supported_srs')
     yield ('bbox_inside_extent', goal_bbox,
            'the bbox sent upstream passed extent.contains, or is the bbox clipped to the extent by bbox_position_in_image')
+    # a clipped bbox that is sent upstream is a proper rectangle (the gate tests in the coverage SRS, the clipping happens in the
+    # request SRS: near a corner the two can disagree and the clipped box comes out inverted)
+    g_proper = z3.BoolVal(True)
+    for i, e in T.evs(st, 'retrieve'):
+        q = e.args[0]
+        for m in [m for jx, m in T.evs(st, 'MapQuery') if m.result is q]:
+            for jx, b in T.evs(st, 'bbox_position_in_image'):
+                if isinstance(b.result, VSeq) and m.args and m.args[0] is b.result.items[2]:
+                    bb = b.result.items[2].items
+                    g_proper = z3.And(g_proper, bb[0].t < bb[2].t, bb[1].t < bb[3].t)
+    yield ('clipped_bbox_is_a_proper_rectangle', g_proper,
+           'a bbox that was cut to the extent is sent upstream only with minx < maxx and miny < maxy (otherwise the source is blank)')
 
 
 contract(W + 'WMSSource._get_map', props=['C17'],
